@@ -108,6 +108,10 @@ type Config struct {
 	Values        []string
 	RefValues     bool // attribute values may reference blobs of the world
 	MaxBlobs      int  // 0 = unbounded; otherwise generation of optional parts stops when reached
+	// DateSpread is the number of distinct seconds (per era) claim dates are drawn
+	// from; 0 means the default of 15. 1 puts all claims of an era into the same
+	// second (dates then differ in their fraction only).
+	DateSpread int
 }
 
 // SigTime is the fixed signature time (makes RSA PKCS#1 signatures deterministic).
@@ -207,7 +211,8 @@ func uniq(in []int) []int {
 // dateGen draws claim dates: whole seconds, sub-second with differing digit
 // counts, both around 2011 and around the Unix epoch (pre-1970 included).
 type dateGen struct {
-	used map[int]map[int64]bool // group (permanode blob index) -> unix nanos in use
+	used   map[int]map[int64]bool // group (permanode blob index) -> unix nanos in use
+	spread int
 }
 
 var fracs = []int{0, 0, 0, 500000000, 250000000, 50000000, 120000000, 123456789, 999999999, 1, 100}
@@ -222,7 +227,11 @@ func (g *dateGen) draw(t *rapid.T, group int) time.Time {
 	default:
 		base = time.Date(2011, 11, 28, 1, 32, 30, 0, time.UTC)
 	}
-	sec := rapid.IntRange(0, 14).Draw(t, "sec")
+	spread := g.spread
+	if spread <= 0 {
+		spread = 15
+	}
+	sec := rapid.IntRange(0, spread-1).Draw(t, "sec")
 	ns := rapid.SampledFrom(fracs).Draw(t, "frac")
 	d := base.Add(time.Duration(sec)*time.Second + time.Duration(ns))
 	if g.used[group] == nil {
@@ -339,7 +348,7 @@ func Draw(t *rapid.T, cfg Config) *World {
 	refTargets = append(refTargets, pns...)
 
 	// attribute claims
-	dg := &dateGen{used: map[int]map[int64]bool{}}
+	dg := &dateGen{used: map[int]map[int64]bool{}, spread: cfg.DateSpread}
 	group := map[int]int{} // blob index -> permanode group
 	for _, p := range pns {
 		group[p] = p
@@ -356,6 +365,8 @@ func Draw(t *rapid.T, cfg Config) *World {
 		var val string
 		if cfg.RefValues && (attr == "camliContent" || attr == "camliMember" || strings.HasPrefix(attr, "camliPath:")) && rapid.IntRange(0, 3).Draw(t, "refVal") != 0 {
 			val = w.Blobs[rapid.SampledFrom(refTargets).Draw(t, "refTarget")].Ref.String()
+		} else if attr == "latitude" || attr == "longitude" {
+			val = rapid.SampledFrom([]string{"1.5", "-2.25", "10", "0.125"}).Draw(t, "coord")
 		} else if attr == "camliNodeType" {
 			val = rapid.SampledFrom([]string{"foursquare.com:checkin", "other", ""}).Draw(t, "nodeType")
 		} else {
